@@ -38,14 +38,14 @@ def vmAbortBody (rec : FUid → M Unit) (f : FUid) (scores : List Score) (deacti
     vmAbortTail f scores deactivate
 
 /-- the deactivation block of `CoreVM.abortFlow` / `finishFlow`, continuing with `k` -/
-def vmDeact (rec : FUid → M Unit) (f : FUid) (deactivate : Bool) (k : M Unit) : M Unit := do
+def vmDeact (tail : String) (rec : FUid → M Unit) (f : FUid) (deactivate : Bool) (k : M Unit) : M Unit := do
     if deactivate && (← isReferenceActivated f) then
       modInstX f fun x => { x with activated := x.activated - 1 }
       let x ← getInstX f
       if x.activated = 0 then
         for c in x.childFlowUids do
           match ← getInstX? c with
-          | none => pyRaise "KeyError" s!"{c} (model line 177)"
+          | none => pyRaise "KeyError" (toString c ++ toString tail)
           | some cx =>
             if cx.flowId = x.flowId then
               rec c
@@ -56,7 +56,7 @@ def vmDeact (rec : FUid → M Unit) (f : FUid) (deactivate : Bool) (k : M Unit) 
 /-- `CoreVM.abortFlow` IS deactivation block ; body ; tail — definitionally -/
 theorem abortFlow_unfold (n : Nat) (f : FUid) (sc : List Score) (d : Bool) :
     CoreVM.abortFlow (n + 1) f sc d =
-      vmDeact (fun c => CoreVM.abortFlow n c sc true) f d (vmAbortBody (fun c => CoreVM.abortFlow n c sc true) f sc d) := rfl
+      vmDeact " (model line 177)" (fun c => CoreVM.abortFlow n c sc true) f d (vmAbortBody (fun c => CoreVM.abortFlow n c sc true) f sc d) := rfl
 
 /-! ### the `Lifetime` pieces do not read the queue / the outgoing events -/
 
